@@ -6,7 +6,7 @@ clause -> what is compared
                        lower (longlex) neighbour index sequences; lattice key present per ignore_lattice
   reload equivalence   for every form (dict, JSON via path / pathlib / file object, python-literal
                        string and file, load() of a .py file, pickle of context, pickle of lattice with
-                       protocols 2..5) x lattice state (never computed / computed) x dump flag x load
+                       protocols 0..5) x lattice state (never computed / computed) x dump flag x load
                        flags: reloaded context == original and its FULL observation vector (per concept:
                        extent, intent, index, dindex, labels, atoms, neighbour indexes, class, owner;
                        per lattice: len, bounds, atoms, str, todict, lookups, join/meet table) equals that
@@ -75,6 +75,17 @@ def shards(tier):
 
 # ---------------------------------------------------------------- observation
 
+PREDICATES = ('implies', 'subsumes', 'properly_implies', 'properly_subsumes', 'incompatible_with',
+              'complement_of', 'subcontrary_with', 'orthogonal_to')
+
+
+def member_queries(c, lat):
+    """The remaining per-concept public queries: minimal generators and the relation
+    predicates against the two bounds (they go through the context's derivation operators)."""
+    return (tuple(c.minimal()), tuple(itertools.islice(c.attributes(), 4)),
+            tuple(bool(getattr(c, p)(o)) for p in PREDICATES for o in (lat.infimum, lat.supremum)))
+
+
 def full_obs(ctx, tables=True):
     lat = ctx.lattice
     members = list(lat)
@@ -86,7 +97,8 @@ def full_obs(ctx, tables=True):
                     tuple(idx.get(id(u)) for u in c.upper_neighbors),
                     tuple(idx.get(id(l)) for l in c.lower_neighbors),
                     type(c).__name__, c.lattice is lat,
-                    lat(c.intent) is c, (lat[c.extent] is c) if c.extent else None))
+                    lat(c.intent) is c, (lat[c.extent] is c) if c.extent else None,
+                    member_queries(c, lat)))
     glob = [len(lat), idx.get(id(lat.infimum)), idx.get(id(lat.supremum)),
             tuple(idx.get(id(a)) for a in lat.atoms), c17corpus.mask(str(lat)),
             _norm(ctx.todict())]
@@ -303,10 +315,17 @@ def check_case(case, ctr):
         same(C.fromfile(fp, frmat='python-literal'), 'python-literal-file', state=state)
         same(concepts.load(fp), 'load-py', state=state)
         # pickle of the context
-        for proto in range(2, pickle.HIGHEST_PROTOCOL + 1):
-            blob = pickle.dumps(c0, protocol=proto)
-            same(pickle.loads(blob), 'pickle-context', state=state, protocol=proto)
-        Ctx.payloads.append(('pickle-context', case.ident(), blob, ref_dg))
+        for proto in range(0, pickle.HIGHEST_PROTOCOL + 1):
+            try:
+                blob = pickle.dumps(c0, protocol=proto)
+                c1 = pickle.loads(blob)
+            except Exception as e:      # pickle's own frames may be the only ones in the traceback
+                bad('pickle-context', 'a context', f'{type(e).__name__}: {str(e)[:200]}',
+                    state=state, protocol=proto)
+                break
+            same(c1, 'pickle-context', state=state, protocol=proto)
+        else:
+            Ctx.payloads.append(('pickle-context', case.ident(), blob, ref_dg))
     # two pickled contexts over the same labels (complemented table), both loaded here, first used last
     inv = [tuple(not b for b in r) for r in case.rows]
     sib = C(case.objs, case.props, inv)
@@ -321,7 +340,7 @@ def check_case(case, ctr):
         bad('pickle-context-with-sibling', 'a context', f'{type(e).__name__}: {e}')
     # pickle of the lattice
     lat = fresh.lattice
-    for proto in range(2, pickle.HIGHEST_PROTOCOL + 1):
+    for proto in range(0, pickle.HIGHEST_PROTOCOL + 1):
         try:
             blob = pickle.dumps(lat, protocol=proto)
             lat2 = pickle.loads(blob)
@@ -375,7 +394,7 @@ def lattice_obs(lat):
              tuple(idx.get(id(a)) for a in c.atoms),
              tuple(idx.get(id(u)) for u in c.upper_neighbors),
              tuple(idx.get(id(l)) for l in c.lower_neighbors), type(c).__name__,
-             c.lattice is lat, lat(c.intent) is c) for c in members] + \
+             c.lattice is lat, lat(c.intent) is c, member_queries(c, lat)) for c in members] + \
         [len(lat), idx.get(id(lat.infimum)), idx.get(id(lat.supremum)),
          c17corpus.mask(str(lat)), _norm(lat._context.todict()) if hasattr(lat, '_context') else None]
 
@@ -571,24 +590,32 @@ def run_shard(shard, tier):
 
 
 def child_check(payloads, counters):
-    """Load every payload in a fresh interpreter with a different hash seed."""
+    """Load every payload in a fresh interpreter with a different hash seed; that interpreter
+    pickles what it loaded again, and a third one (yet another seed) loads those - a loaded
+    object is a state like any other, so it must pickle as well as the original did."""
+    out = []
     batch = os.path.join(Ctx.tmp, 'batch.pickle')
     with open(batch, 'wb') as f:
         pickle.dump([(kind, blob) for kind, _, blob, _ in payloads], f)
-    envv = dict(os.environ, PYTHONHASHSEED='4242', VERIF_REPO=common.REPO)
-    r = subprocess.run([common.PY, CHILD, batch], capture_output=True, text=True, env=envv,
-                       timeout=3000)
-    out = []
-    lines = r.stdout.splitlines()
-    if r.returncode != 0 or len(lines) != len(payloads):
-        raise common.HarnessError(f'c11 child failed: {r.stderr[-1500:]}')
-    for (kind, ident, blob, dg), line in zip(payloads, lines):
-        counters['hit_child_process'] = counters.get('hit_child_process', 0) + 1
-        counters['calls'] = counters.get('calls', 0) + 1
-        if line != dg:
-            out.append(common.violation(ID, f'fresh-process-{kind}', ident, dg, line))
-            if len(out) >= 3:
-                break
+    for hop, hseed in ((1, '4242'), (2, '77')):
+        nxt = os.path.join(Ctx.tmp, f'batch{hop}.pickle')
+        envv = dict(os.environ, PYTHONHASHSEED=hseed, VERIF_REPO=common.REPO)
+        r = subprocess.run([common.PY, CHILD, batch, nxt], capture_output=True, text=True,
+                           env=envv, timeout=3000)
+        lines = r.stdout.splitlines()
+        if r.returncode != 0 or len(lines) != len(payloads):
+            raise common.HarnessError(f'c11 child failed: {r.stderr[-1500:]}')
+        for (kind, ident, blob, dg), line in zip(payloads, lines):
+            counters['hit_child_process'] = counters.get('hit_child_process', 0) + 1
+            counters['calls'] = counters.get('calls', 0) + 1
+            if line != dg:
+                clause = f'fresh-process-{kind}' if hop == 1 else f'second-fresh-process-{kind}'
+                out.append(common.violation(ID, clause, dict(ident, process_hops=hop), dg, line))
+                if len(out) >= 3:
+                    break
+        if out:
+            break
+        batch = nxt
     return out
 
 
